@@ -309,6 +309,17 @@ theorem C07_given_denotes : ∀ (fs : List SField) (ms : List VMember) (given : 
     · cases h
 end
 
+/-- **the reading is a function**: a notation that names no component twice (hereditarily) denotes at most one
+    abstract value under a governing type — `Denotes` determines *the* value, it does not merely allow one -/
+theorem C07_reading_is_a_function (v : SVal) (hw : wfVal v) (ty : VTy) (x y : AbsVal)
+    (hx : Denotes ty v x) (hy : Denotes ty v y) : x = y :=
+  denotes_unique v hw ty x y hx hy
+
+/-- **exactness**: whatever abstract value the notation denotes, a value that links denotes that one -/
+theorem C07_composite_exact (v : SVal) (hw : wfVal v) (ty : VTy) (l : LVal) (x : AbsVal)
+    (hl : link ty v = some l) (hx : Denotes ty v x) : absL l = x :=
+  denotes_unique v hw ty _ _ (C07_composite_denotes v ty l hl) hx
+
 /-- with pairwise distinct component names (X.680 §25.10) "the component called n" is the member
     itself, so a given value is read with its own member's type -/
 theorem C07_component_of_name (pre post : List VMember) (n : String) (t : VTy) (d : Option LVal)
